@@ -221,6 +221,9 @@ func init() { commands["c01"] = runC01 }
 
 func standardEnvs(rng *rand.Rand, n int) []*Env {
 	envs := []*Env{baseEnv(), zeroEnv(), boundaryEnv()}
+	if n >= 4 {
+		envs = append(envs, floatEnv())
+	}
 	for len(envs) < n {
 		envs = append(envs, randomEnv(rng))
 	}
